@@ -258,6 +258,15 @@ func (d *driver) build(race bool) (string, error) {
 	return bin, nil
 }
 
+func firstLine(s string) string {
+	for _, l := range strings.Split(s, "\n") {
+		if strings.HasPrefix(l, "panic:") || strings.HasPrefix(l, "fatal error:") {
+			return l
+		}
+	}
+	return ""
+}
+
 func tail(s string, n int) string {
 	l := strings.Split(s, "\n")
 	if len(l) > n {
@@ -338,6 +347,42 @@ func (d *driver) runProc(bin string, j *job, idx int, timeout time.Duration, rac
 	return res, ""
 }
 
+// productCrash: did the process die from a panic in a goroutine of the code under test (which nothing can recover)?
+// Returns the innermost keymaster function of the panicking goroutine.
+func productCrash(output string) string {
+	i := strings.Index(output, "\npanic: ")
+	if i < 0 {
+		if !strings.HasPrefix(output, "panic: ") {
+			i = strings.Index(output, "fatal error: ")
+			if i < 0 {
+				return ""
+			}
+		} else {
+			i = 0
+		}
+	}
+	lines := strings.Split(output[i:], "\n")
+	for k := 0; k+1 < len(lines) && k < 60; k++ {
+		l := strings.TrimSpace(lines[k])
+		if !strings.HasPrefix(l, "github.com/Cloud-Foundations/keymaster/") {
+			continue
+		}
+		file := strings.TrimSpace(lines[k+1])
+		if strings.Contains(file, "zz_vf") || strings.Contains(file, "/verif/") {
+			return "" // the harness panicked (or made the product panic through its own logger.Fatal): not a product crash
+		}
+		fn := strings.TrimPrefix(l, "github.com/Cloud-Foundations/keymaster/")
+		if j := strings.LastIndex(fn, "("); j > 0 {
+			fn = fn[:j]
+		}
+		return fn
+	}
+	return ""
+}
+
+// properties whose statement a dying daemon contradicts
+var crashProps = map[string]bool{"C11": true, "C16": true, "C20": true, "C15": true}
+
 func readResults(path string) []result {
 	f, err := os.Open(path)
 	if err != nil {
@@ -394,7 +439,34 @@ func (d *driver) replay(spec *propSpec, file string) int {
 		return rc
 	}
 	j := &job{Prop: spec.ID, Tier: d.tier, Mode: "replay", Replay: raw}
-	res, perr := d.runProc(bin, j, 0, 10*time.Minute, spec.Race)
+	var seq struct {
+		Seeds []int64 `json:"seeds"`
+		Tier  string  `json:"tier"`
+	}
+	json.Unmarshal(raw, &seq)
+	if len(seq.Seeds) > 0 {
+		// a sequence of simulated lifetimes in one process; the last one is the one that counts
+		if seq.Tier != "" {
+			j.Tier = seq.Tier
+		}
+		j.Mode, j.Replay, j.Seeds = "explore", nil, seq.Seeds
+	}
+	res, perr := d.runProc(bin, j, 0, 20*time.Minute, spec.Race)
+	if fn := productCrash(perr); fn != "" && len(seq.Seeds) > 0 {
+		fmt.Println(tail(perr, 25))
+		fmt.Printf("VIOLATION property=%s replay=%s class=daemon-crash key=daemon-crash:%s\n", spec.ID, file, fn)
+		d.cleanup()
+		return 1
+	}
+	if len(seq.Seeds) > 0 {
+		var last []result
+		for _, r := range res {
+			if r.Seed == seq.Seeds[len(seq.Seeds)-1] {
+				last = append(last, r)
+			}
+		}
+		res = last
+	}
 	if perr != "" && len(res) == 0 {
 		return d.infra("%s", perr)
 	}
@@ -486,10 +558,60 @@ func (d *driver) check(spec *propSpec) int {
 	wg.Wait()
 	runSecs := time.Since(runStart).Seconds()
 	sort.Slice(all, func(i, j int) bool { return all[i].Seed < all[j].Seed })
+	var crashLines []string
 	if len(perrs) > 0 {
-		return d.infra("%s", strings.Join(perrs, "\n"))
+		// a process died.  If the code under test panicked in a goroutine of its own and the property speaks about
+		// that, find the run, replay it alone in a fresh process, and report it if it dies again.
+		handled := 0
+		seenCrash := map[string]bool{}
+		for _, pe := range perrs {
+			fn := productCrash(pe)
+			if fn == "" || !crashProps[spec.ID] {
+				continue
+			}
+			if seenCrash[fn] {
+				handled++
+				continue
+			}
+			var pidx int
+			fmt.Sscanf(pe, "process %d:", &pidx)
+			done := map[int64]bool{}
+			for _, r := range all {
+				done[r.Seed] = true
+			}
+			var culprit int64 = -1
+			for i := pidx; i < nruns; i += nproc {
+				if sd := d.seed*1000003 + int64(i); !done[sd] {
+					culprit = sd
+					break
+				}
+			}
+			if culprit < 0 {
+				continue
+			}
+			j := &job{Prop: spec.ID, Tier: d.tier, Mode: "explore", Seeds: []int64{culprit}, Shrink: 0, Samples: 0, Known: knownKeys}
+			_, perr2 := d.runProc(bin, j, 903, 20*time.Minute, spec.Race)
+			if fn2 := productCrash(perr2); fn2 != "" {
+				key := "daemon-crash:" + fn2
+				dir := filepath.Join(verifDir, "replays", spec.ID)
+				if d.replayDir != "" {
+					dir = filepath.Join(d.replayDir, spec.ID)
+				}
+				os.MkdirAll(dir, 0o755)
+				path := filepath.Join(dir, fmt.Sprintf("%d-%s.json", culprit, sanitize(key)))
+				b, _ := json.MarshalIndent(map[string]any{"property": spec.ID, "key": key, "class": "daemon-crash", "tier": d.tier, "seeds": []int64{culprit},
+					"note": "the run of this seed kills the process: a goroutine of the code under test panics (see the trace when replayed)"}, "", " ")
+				os.WriteFile(path, b, 0o644)
+				seenCrash[fn] = true
+				crashLines = append(crashLines, fmt.Sprintf("VIOLATION property=%s replay=%s class=daemon-crash key=%s runs=1 detail=%q", spec.ID, path, key, "a goroutine of the code under test panicked and took the whole process down: "+firstLine(perr2)))
+				handled++
+			}
+		}
+		if handled < len(perrs) && len(crashLines) == 0 {
+			return d.infra("%s", strings.Join(perrs, "\n"))
+		}
 	}
-	if len(all) == 0 {
+	if len(all) == 0 && len(crashLines) == 0 {
 		return d.infra("no runs completed")
 	}
 	for _, r := range all {
@@ -545,6 +667,10 @@ func (d *driver) check(spec *propSpec) int {
 	exit := 0
 	var knownSeen []string
 	var lines []string
+	if len(crashLines) > 0 {
+		lines = append(lines, crashLines...)
+		exit = 1
+	}
 	for _, k := range keys {
 		g := groups[k]
 		if kf := matchKnown(known, spec.ID, k); kf != nil {
@@ -604,11 +730,44 @@ func (d *driver) check(spec *propSpec) int {
 				}
 			}
 		}
+		seqNote := ""
+		if ok == 0 {
+			// Third attempt: the run together with the runs that preceded it in its process.  One process plays many
+			// simulated daemon lifetimes; state the simulator cannot reset (package-level variables of library packages)
+			// survives from one to the next, exactly as it survives between requests of one real daemon.
+			base := d.seed * 1000003
+			idx := int(g.first.Seed - base)
+			if idx >= 0 && idx < nruns {
+				var seeds []int64
+				for q := idx % nproc; q <= idx; q += nproc {
+					seeds = append(seeds, base+int64(q))
+				}
+				j3 := &job{Prop: spec.ID, Tier: d.tier, Mode: "explore", Seeds: seeds, Shrink: 0, Samples: 0, Known: knownKeys}
+				rr, perr3 := d.runProc(bin, j3, 902, 20*time.Minute, spec.Race)
+				perr = perr3
+				for _, r := range rr {
+					if r.Seed != g.first.Seed {
+						continue
+					}
+					for _, v := range r.Violations {
+						if v.Prop == spec.ID && v.Key == k {
+							ok++
+						}
+					}
+				}
+				if ok > 0 {
+					seqFile, _ := json.MarshalIndent(map[string]any{"property": spec.ID, "key": k, "class": g.v.Class, "tier": d.tier, "seeds": seeds,
+						"note": "run the seeds in this order in ONE process: the violation shows at the last one; it depends on state that survives from one simulated daemon lifetime to the next (process-global state outside cmd/keymasterd)"}, "", " ")
+					os.WriteFile(path, seqFile, 0o644)
+					seqNote = fmt.Sprintf(" replay_note=%q", fmt.Sprintf("reproduces only after the %d runs that precede it in its process: process-global state of the code under test leaks between simulated lifetimes", len(seeds)-1))
+				}
+			}
+		}
 		if ok == 0 {
 			return d.infra("violation %s (seed %d) did not reproduce from its replay file %s in %d fresh processes (%v)", k, g.first.Seed, path, tries, perr)
 		}
-		note := ""
-		if tries > 1 {
+		note := seqNote
+		if tries > 1 && seqNote == "" {
 			note = fmt.Sprintf(" replay_note=%q", fmt.Sprintf("reproduced in replay %d of %d: the code under test depends on a source of nondeterminism outside the simulator (e.g. map iteration order)", tries, tries))
 		}
 		lines = append(lines, fmt.Sprintf("VIOLATION property=%s replay=%s class=%s key=%s runs=%d detail=%q%s", spec.ID, path, g.v.Class, k, g.count, g.v.Detail, note))
